@@ -17,35 +17,48 @@ def run(run: core.Run, tier: str):
       "rounding breakpoint +-1,2 ulp, saturation edges, zeros, +-(2^24-1) steps, random); per point the real "
       "output is judged against the exact rational reference: nearest code (half a step, +2^-24 slack for the "
       "float hard-sigmoid surrogates), end code outside the range, monotone over the sorted stream, and "
-      "q(q(x)) = q(x) for linear / scale-free bits / plain ReLU; non-trivial = distinct (configuration, input)")
+      "q(q(x)) = q(x) for linear / scale-free bits / plain ReLU; non-trivial = distinct (configuration, input); "
+      "PLUS the strengthening families of C01 (per-channel alpha tensors, quantized_relu x is_quantized_clip x "
+      "relu_upper_bound x slope judged against the float activation x_u, the module-level _sigmoid switch: "
+      "mode at construction x mode at call judged against the surrogate of the CALL-time mode, "
+      "construct-with-decoy-then-assign)")
   fixedq.compare(run, recs, with_reporters=False)
-  slack = F(1, 2 ** 24)
   for r in recs:
-    key0 = {"kind": r.kind}
+    key0 = r.flags()
     lat = fixedq.lattice(r.kind, r.cfg)
     if lat is None:
       # 1-bit sign formats: only monotonicity and idempotence apply
       step = lo = hi = gain = None
     else:
       step, lo, hi, gain = lat
-    leaky = r.kind == "qrelu" and r.cfg.get("slope_log") is not None
+    leaky = r.kind in ("qrelu", "qrelusig") and r.cfg.get("slope_log") is not None
+    slack = fixedq.surrogate_slack(r.kind, r.cfg)
     for i, (x, y) in enumerate(zip(r.xs, r.ys)):
       run.case((r.label, x), nontrivial=True)
       if lat is None:
         continue
-      if leaky and 2 ** (r.cfg["bits"] - 1) < 2 ** r.cfg["slope_log"]:
-        continue   # slope below the lsb: outside the lattice (C01 finding), nearest-code is not defined
-      if r.kind in ("qtanh", "qsigmoid") and r.cfg.get("real"):
-        s = r.ps[i]          # oracle input: TF's tanh / sigmoid value
+      if leaky and (r.kind == "qrelusig" or 2 ** (r.cfg["bits"] - 1) < 2 ** r.cfg["slope_log"]):
+        continue   # slope below the lsb: outside the lattice (C01 finding), nearest-code is not defined;
+        #            use_sigmoid with a leaky slope has no stated underlying activation (model tie only)
+      s = fixedq.surrogate_exact(r.kind, r.cfg, x)
+      tol = slack
+      if s is None:
+        # oracle input: TF's tanh / sigmoid value (use_real_*, or the mode "real" at CALL time)
         tol = F(0)
-      else:
-        s = fixedq.surrogate_exact(r.kind, r.cfg, x)
-        tol = slack if r.kind in ("qtanh", "qsigmoid") else F(0)
+        if r.kind == "qrelusig":
+          s = F(2) ** r.cfg["integer"] * max(2 * r.ps[i] - 1, F(0))
+        else:
+          s = r.ps[i]
+      # quantized_relu(use_sigmoid=1) rounds sigma*m and then doubles: codes two steps apart
+      grid = 2 if r.kind == "qrelusig" else 1
       yy = y / gain
       if lo * step <= s <= hi * step:
         run.count("in_range")
         if abs(yy - s) > step / 2 + tol:
-          run.violate("nearest", dict(key0, region="in-range"),
+          why = "beyond-half-step"
+          if grid == 2 and abs(yy - s) <= step + tol:
+            why = "two-step-grid"
+          run.violate("nearest", dict(key0, region="in-range", why=why),
                       {"config": r.label, "x": str(x), "surrogate": str(s), "y": str(y), "step": str(step)},
                       mirrored=r.mirrored)
       elif s > hi * step:
@@ -70,7 +83,7 @@ def run(run: core.Run, tier: str):
     # ---- idempotence: linear (any constant scale), quantized_bits, plain ReLU
     if r.kind in ("qlinear", "qbits") or (r.kind == "qrelu" and not leaky):
       ys32 = np.array([float(v) for v in r.ys], dtype=np.float32)
-      yy = fixedq.fr(np.asarray(r.q(tf.constant(ys32)), dtype=np.float32))
+      yy = fixedq.fr(r.call(ys32))
       run.evaluations += len(yy)
       bad = [(str(a), str(b)) for a, b in zip(r.ys, yy) if a != b]
       if bad:
